@@ -32,7 +32,11 @@ RULE_ADDED = (
               'redrawn '
               ' '
               'Round 8: SGX root of trust delivered by file / URL / default URL; the genuine ro'
-              'ot with one bit of its signature value flipped. ')
+              'ot with one bit of its signature value flipped. '
+              ' '
+              'Round 10: a third of the genuine SGX devices hold a state whose message digest b'
+              'egins or ends with a zero byte; scratch files on another file system than the te'
+              'mp directory in half the shards. ')
 RULE = RULE + " " + RULE_ADDED.strip()
 ASSUMPTIONS = [
     "the genuine-device models in pv/simdev/genuine.py (endorsement scheme two: signatures by "
@@ -479,8 +483,11 @@ def run_case(acc, cseed, tmpdir):
 
 def run_shard(spec, acc):
     env.setup()
+    if spec.get("shard", spec.get("seed", 0)) % 4 >= 2 and env.on_other_fs():
+        acc.count("shards_with_files_on_another_file_system_than_the_temp_directory")
     rng = random.Random(spec["seed"])
-    tmpdir = env.mkdtemp("c15", spec.get("shard", spec.get("seed", 0)) % 2 == 1)
+    tmpdir = env.mkdtemp("c15", spec.get("shard", spec.get("seed", 0)) % 2 == 1,
+                         other_fs=spec.get("shard", spec.get("seed", 0)) % 4 >= 2)
     try:
         for i in range(spec["n"]):
             run_case(acc, rng.getrandbits(48), tmpdir)
